@@ -1716,8 +1716,13 @@ func (c *Compiler) compileFor(node *ast.For) error {
 
 	// Compile the init statement if present
 	if node.Init() != nil {
-		if err := c.compile(node.Init()); err != nil {
+		init := node.Init()
+		if err := c.compile(init); err != nil {
 			return err
+		}
+		// Like the post statement: the value of an expression is not used
+		if init.IsExpression() {
+			c.emit(op.PopTop)
 		}
 	}
 
